@@ -279,6 +279,55 @@ pub assume_specification<T: Ord>[ core::cmp::max ](a: T, b: T) -> (r: T)
 pub assume_specification<T, E>[ Result::<T, E>::unwrap_or ](s: Result<T, E>, default: T) -> (r: T)
     ensures r == (match s { Ok(v) => v, Err(_) => default });
 
+
+// ASSUMED contracts of core integer methods that vstd does not specify (u64)
+pub assume_specification[ u64::checked_shl ](x: u64, n: u32) -> (r: Option<u64>)
+    ensures n < 64 ==> r == Some(x << n), n >= 64 ==> r is None;
+pub assume_specification[ u64::checked_shr ](x: u64, n: u32) -> (r: Option<u64>)
+    ensures n < 64 ==> r == Some(x >> n), n >= 64 ==> r is None;
+pub assume_specification[ u64::overflowing_add ](x: u64, y: u64) -> (r: (u64, bool))
+    ensures r.0 as int == (x + y) % (0xffff_ffff_ffff_ffffint + 1), r.1 == (x + y > 0xffff_ffff_ffff_ffff);
+pub assume_specification[ u64::overflowing_sub ](x: u64, y: u64) -> (r: (u64, bool))
+    ensures r.0 as int == (x - y) % (0xffff_ffff_ffff_ffffint + 1), r.1 == (x < y);
+pub assume_specification[ u64::abs_diff ](x: u64, y: u64) -> (r: u64)
+    ensures r as int == (if x >= y { x - y } else { y - x });
+
+// ASSUMED contracts of core integer methods that vstd does not specify (usize)
+pub assume_specification[ usize::checked_shl ](x: usize, n: u32) -> (r: Option<usize>)
+    ensures n < 64 ==> r == Some(x << n), n >= 64 ==> r is None;
+pub assume_specification[ usize::checked_shr ](x: usize, n: u32) -> (r: Option<usize>)
+    ensures n < 64 ==> r == Some(x >> n), n >= 64 ==> r is None;
+pub assume_specification[ usize::overflowing_add ](x: usize, y: usize) -> (r: (usize, bool))
+    ensures r.0 as int == (x + y) % (0xffff_ffff_ffff_ffffint + 1), r.1 == (x + y > 0xffff_ffff_ffff_ffff);
+pub assume_specification[ usize::overflowing_sub ](x: usize, y: usize) -> (r: (usize, bool))
+    ensures r.0 as int == (x - y) % (0xffff_ffff_ffff_ffffint + 1), r.1 == (x < y);
+pub assume_specification[ usize::abs_diff ](x: usize, y: usize) -> (r: usize)
+    ensures r as int == (if x >= y { x - y } else { y - x });
+
+// ASSUMED contracts of core integer methods that vstd does not specify (u32)
+pub assume_specification[ u32::checked_shl ](x: u32, n: u32) -> (r: Option<u32>)
+    ensures n < 32 ==> r == Some(x << n), n >= 32 ==> r is None;
+pub assume_specification[ u32::checked_shr ](x: u32, n: u32) -> (r: Option<u32>)
+    ensures n < 32 ==> r == Some(x >> n), n >= 32 ==> r is None;
+pub assume_specification[ u32::overflowing_add ](x: u32, y: u32) -> (r: (u32, bool))
+    ensures r.0 as int == (x + y) % (0xffff_ffffint + 1), r.1 == (x + y > 0xffff_ffff);
+pub assume_specification[ u32::overflowing_sub ](x: u32, y: u32) -> (r: (u32, bool))
+    ensures r.0 as int == (x - y) % (0xffff_ffffint + 1), r.1 == (x < y);
+pub assume_specification[ u32::abs_diff ](x: u32, y: u32) -> (r: u32)
+    ensures r as int == (if x >= y { x - y } else { y - x });
+
+// ASSUMED contracts of core integer methods that vstd does not specify (u16)
+pub assume_specification[ u16::checked_shl ](x: u16, n: u32) -> (r: Option<u16>)
+    ensures n < 16 ==> r == Some(x << n), n >= 16 ==> r is None;
+pub assume_specification[ u16::checked_shr ](x: u16, n: u32) -> (r: Option<u16>)
+    ensures n < 16 ==> r == Some(x >> n), n >= 16 ==> r is None;
+pub assume_specification[ u16::overflowing_add ](x: u16, y: u16) -> (r: (u16, bool))
+    ensures r.0 as int == (x + y) % (0xffffint + 1), r.1 == (x + y > 0xffff);
+pub assume_specification[ u16::overflowing_sub ](x: u16, y: u16) -> (r: (u16, bool))
+    ensures r.0 as int == (x - y) % (0xffffint + 1), r.1 == (x < y);
+pub assume_specification[ u16::abs_diff ](x: u16, y: u16) -> (r: u16)
+    ensures r as int == (if x >= y { x - y } else { y - x });
+
 // ---- mode B helpers: panics as divergence (no precondition) ------------------
 
 #[verifier::external_body]
